@@ -89,6 +89,12 @@ def w_random(seeds):
             if errs:
                 invalid_bases.append((el, seed, errs[:3]))
         with_metadata(root, rnd)
+        if seed % 9 == 8:
+            # validation may start anywhere: a tree handed to validate.tree that is ROOTED at a metadata element (or at its holder)
+            md = [x for x in walk(root) if x.name == "metadata"]
+            if md:
+                root = rnd.choice(md) if rnd.random() < 0.7 else rnd.choice(md).parent
+                desc = dict(desc, rooted_at=root.name)
         muts = []
         for _ in range(rnd.choice([0, 1, 1, 2, 3, 4])):
             m = valtrace.mutate(root, rnd, t, PLANT)
